@@ -131,9 +131,9 @@ def run(tier, seed):
         corpus.append(json.load(open(fn)))
     out = run_impl("c17.py", {"seed": seed, "n": n, "corpus": corpus,
                               "exhaustive": 3 if tier == "quick" else 4})
-    ck.cov["exhaustive"] = ("all Vector3d lists and all Rotation lists (antipodal True and False) of length <= "
+    ck.cov["bounded_exhaustive"] = ("all Vector3d lists and all Rotation lists (antipodal True and False) of length <= "
                             f"{3 if tier == 'quick' else 4} over 6-symbol alphabets (zero, value, negated, +3e-11, "
-                            "+1e-10, other / q, -q, improper q, other, +1e-13, +1e-11); all Miller(use_symmetry, "
+                            "+1e-10, other / q, -q, improper q, other, +1.3e-13, +1.3e-11); all Miller(use_symmetry, "
                             "4/mmm) lists of length <= 3 over 5 vectors -- validation of the model, not the theorem")
     cases = out["cases"]
     for c in cases:
